@@ -139,6 +139,15 @@ let handle l =
       let rec split i acc l = if i = 0 then (List.rev acc, l) else (match l with x :: t -> split (i - 1) (x :: acc) t | [] -> failwith "core2shape") in
       let (pairs, doc) = split n [] rest in
       string_of_int (int_of_n (core2_shape_tbl (parse_cls cls) (dec_doc (make_reader doc)) (List.map parse_pair pairs)))
+  | "coretshape" :: cls :: nums :: holos :: np :: rest ->
+      let nums = if nums = "-" then [] else List.map (fun e -> match String.split_on_char '/' e with
+          | [r; k; c] -> (str_of_tok r, ((k = "f"), str_of_tok c)) | _ -> failwith "num") (String.split_on_char ',' nums) in
+      let holos = if holos = "-" then [] else List.map str_of_tok (String.split_on_char ',' holos) in
+      let n = int_of_string np in
+      let rec split i acc l = if i = 0 then (List.rev acc, l) else (match l with x :: t -> split (i - 1) (x :: acc) t | [] -> failwith "coretshape") in
+      let (pairs, doc) = split n [] rest in
+      let d = dec_doc (make_reader doc) in
+      (if is_coret d then "" else "X") ^ string_of_int (int_of_n (coret_shape_tbl (parse_cls cls) nums holos d (List.map parse_pair pairs)))
   | "corezshape" :: cls :: np :: rest ->
       let n = int_of_string np in
       let rec split i acc l = if i = 0 then (List.rev acc, l) else (match l with x :: t -> split (i - 1) (x :: acc) t | [] -> failwith "corezshape") in
